@@ -316,14 +316,29 @@ theorem after_laterCb (D : List Nat) (st : St) (a : Nat) (b : B (a :: D) st) (ha
       exact After.of_b (b_processNotify _ st a ha hs b) (by rw [hm.slot a ha, hs]; decide)
     · exact After.of_b b (by omega)
 
-/-- The loop over the detached batch of deferred callbacks. -/
-theorem b_laterLoopT (D : List Nat) (l : List Nat) : ∀ st : St, (∀ a ∈ l, a < st.heap.length ∧ ∀ t, a ∉ listOf st t) →
+theorem b_laterPre (D : List Nat) (st : St) (a : Nat) : BStep D st (laterPre st a) :=
+  BStep.of_q0 (q0_laterPre st a) (g4_laterPre st a).lstep (r2_laterPre [] st a)
+
+theorem live_laterPre (st : St) (a x : Nat) (hx : x < st.heap.length) : (laterPre st a).live x = st.live x := by
+  unfold laterPre
+  split
+  · exact live_setW_same st a { st.getW a with flags := (st.getW a).flags - ((st.getW a).flags &&& BIND_UNBIND) } rfl x hx
+  · rfl
+
+theorem isOk_laterPre (st : St) (a : Nat) : (laterPre st a).isOk = st.isOk := by
+  unfold laterPre; split <;> rfl
+
+/-- The loop over the detached batch of deferred callbacks (its members were deferred callbacks when the batch
+    was detached; a cancel may have marked some `WATCH_NONE` since). -/
+theorem b_laterLoopT (D : List Nat) (l : List Nat) : ∀ st : St,
+    (∀ a ∈ l, a < st.heap.length ∧ (∀ t, a ∉ listOf st t) ∧ ((st.getW a).type = .later ∨ (st.getW a).type = .none)) →
     B (l ++ D) st → B D (laterLoopT st l).1 := by
   induction l with
   | nil => intro st _ b; exact b
   | cons a rest ih =>
     intro st hl b
     have b' : B (a :: (rest ++ D)) st := b
+    have ha := hl a List.mem_cons_self
     unfold laterLoopT
     split
     · rename_i hbad; exact b.of_not_ok (eq_false_of_not hbad)
@@ -331,24 +346,57 @@ theorem b_laterLoopT (D : List Nat) (l : List Nat) : ∀ st : St, (∀ a ∈ l, 
       split
       · exact b_fail' _ _ b
       · rename_i hlive
-        have ha := hl a List.mem_cons_self
-        have x := after_laterCb (rest ++ D) st a b' ha.1 (not_of_not_eq_true hok) (not_of_not_eq_true hlive)
-        have f1 := l_laterCb st a b.rep.1 b.wf
+        have hlive' := not_of_not_eq_true hlive
         split
-        · rename_i hbad; exact x.b_of_not_ok (eq_false_of_not hbad)
-        · split
-          · rename_i hdead; exact b_fail' _ _ (x.b_of_dead (eq_false_of_not hdead))
-          · rename_i hl2
-            have hl2' := not_of_not_eq_true hl2
-            have hun1 := unlisted_after f1 ha.1 ha.2
-            have b2 : B (rest ++ D) ((laterCb st a).free a) := x.free hl2' hun1
-            have f12 : LFacts st ((laterCb st a).free a) :=
-              (LStep.trans (fun _ _ => f1) (lstep_free_unlisted (laterCb st a) a hun1)) b.rep.1 b.wf
-            have hrest : ∀ c ∈ rest, c < ((laterCb st a).free a).heap.length ∧ ∀ t, c ∉ listOf ((laterCb st a).free a) t := by
-              intro c hc
-              have hc' := hl c (List.mem_cons_of_mem _ hc)
-              exact ⟨Nat.lt_of_lt_of_le hc'.1 f12.len, unlisted_after f12 hc'.1 hc'.2⟩
-            exact ih _ hrest b2
+        · -- cancelled by an earlier callback of this iteration: freed without being invoked
+          rename_i hskip
+          have hty : (st.getW a).type = .none := ha.2.2.elim (fun h => absurd h hskip.2) id
+          have f2 : LFacts st (st.free a) := lstep_free_unlisted st a ha.2.1 b.rep.1 b.wf
+          have q := Q.of_q0 (q0_free st a)
+          have hdead := St.live_free_self st a hlive'
+          have b2 : B (rest ++ D) (st.free a) :=
+            ⟨by rw [f2.cfg]; exact b.rep, f2.wf, K.of_q q b.k, Once.none_of_q q b.k b.o, (b'.li.free a).drop (fun _ => hdead),
+             b.g.free a (fun r hr e ho => by rw [hty] at ho; cases ho)⟩
+          have hm := mh_free st a
+          have hrest : ∀ c ∈ rest, c < (st.free a).heap.length ∧ (∀ t, c ∉ listOf (st.free a) t) ∧
+              (((st.free a).getW c).type = .later ∨ ((st.free a).getW c).type = .none) := by
+            intro c hc
+            have hc' := hl c (List.mem_cons_of_mem _ hc)
+            refine ⟨Nat.lt_of_lt_of_le hc'.1 f2.len, unlisted_after f2 hc'.1 hc'.2.1, ?_⟩
+            rcases hm.typ c hc'.1 with e | e
+            · rw [e]; exact hc'.2.2
+            · exact Or.inr e
+          exact ih _ hrest b2
+        · have b0 : B (a :: (rest ++ D)) (laterPre st a) := b_laterPre _ st a b'
+          have hlen0 : (laterPre st a).heap.length = st.heap.length := by
+            unfold laterPre; split
+            · exact St.length_setW _ _ _
+            · rfl
+          have x := after_laterCb (rest ++ D) (laterPre st a) a b0 (by rw [hlen0]; exact ha.1)
+            (by rw [isOk_laterPre]; exact not_of_not_eq_true hok) (by rw [live_laterPre st a a ha.1]; exact hlive')
+          have f1 := l_laterPreCb st a b.rep.1 b.wf
+          split
+          · rename_i hbad; exact x.b_of_not_ok (eq_false_of_not hbad)
+          · split
+            · rename_i hdead; exact b_fail' _ _ (x.b_of_dead (eq_false_of_not hdead))
+            · rename_i hl2
+              have hl2' := not_of_not_eq_true hl2
+              have hun1 := unlisted_after f1 ha.1 ha.2.1
+              have b2 : B (rest ++ D) ((laterCb (laterPre st a) a).free a) := x.free hl2' hun1
+              have f12 : LFacts st ((laterCb (laterPre st a) a).free a) :=
+                (LStep.trans (fun _ _ => f1) (lstep_free_unlisted (laterCb (laterPre st a) a) a hun1)) b.rep.1 b.wf
+              have hm : MH st ((laterCb (laterPre st a) a).free a) :=
+                ((q0_laterPre st a).b.h.trans (mh_laterCb _ a)).trans (mh_free _ a)
+              have hrest : ∀ c ∈ rest, c < ((laterCb (laterPre st a) a).free a).heap.length ∧
+                  (∀ t, c ∉ listOf ((laterCb (laterPre st a) a).free a) t) ∧
+                  ((((laterCb (laterPre st a) a).free a).getW c).type = .later ∨ (((laterCb (laterPre st a) a).free a).getW c).type = .none) := by
+                intro c hc
+                have hc' := hl c (List.mem_cons_of_mem _ hc)
+                refine ⟨Nat.lt_of_lt_of_le hc'.1 f12.len, unlisted_after f12 hc'.1 hc'.2.1, ?_⟩
+                rcases hm.typ c hc'.1 with e | e
+                · rw [e]; exact hc'.2.2
+                · exact Or.inr e
+              exact ih _ hrest b2
 
 theorem b_timerLoopPopT (D : List Nat) (fuel : Nat) : ∀ (st : St) (now : TV), BStep D st (timerLoopPopT fuel st now).1 := by
   induction fuel with
@@ -447,9 +495,16 @@ theorem b_invokeTimers (D : List Nat) (fuel : Nat) (st : St) : BStep D st (invok
       ⟨b.rep, f0.wf, K.of_q (Q.of_q0 (q0_with_laters st [])) b.k, Once.none_of_q (Q.of_q0 (q0_with_laters st [])) b.k b.o,
        li0, Gone.of_same rfl rfl rfl rfl b.g⟩
     have f1' := l_timerPhase fuel { st with laters := [] } hc f0.wf
+    have hm := mh_timerPhase fuel ({ st with laters := [] } : St)
     have hdet1 : ∀ a ∈ st.laters, a < (timerPhase fuel { st with laters := [] }).heap.length ∧
-        ∀ t, a ∉ listOf (timerPhase fuel { st with laters := [] }) t :=
-      fun a ha => ⟨Nat.lt_of_lt_of_le (hdet a ha).1 f1'.len, unlisted_after f1' (hdet a ha).1 (hdet a ha).2⟩
+        (∀ t, a ∉ listOf (timerPhase fuel { st with laters := [] }) t) ∧
+        (((timerPhase fuel { st with laters := [] }).getW a).type = .later ∨ ((timerPhase fuel { st with laters := [] }).getW a).type = .none) := by
+      intro a ha
+      refine ⟨Nat.lt_of_lt_of_le (hdet a ha).1 f1'.len, unlisted_after f1' (hdet a ha).1 (hdet a ha).2, ?_⟩
+      have hty : (st.getW a).type = .later := w.typ .later a ha
+      rcases hm.typ a (hdet a ha).1 with e | e
+      · left; rw [e]; exact hty
+      · exact Or.inr e
     exact b_laterLoopT D st.laters _ hdet1 (b_timerPhase _ _ _ b0)
 
 /-! signals -/
